@@ -98,8 +98,16 @@ func stubOverlay(work, harness string, replace map[string]string) error {
 		return nil
 	}
 	type target struct{ recv, name, stub string }
+	type extTarget struct{ pkg, name, stub string }
 	var targets []target
+	var exts []extTarget
 	for full, stub := range stubs {
+		if !strings.Contains(full, "shmipc-go") {
+			// function of another package: rewrite the call sites in the repository's files
+			i := strings.LastIndexByte(full, '.')
+			exts = append(exts, extTarget{pkg: full[:i], name: full[i+1:], stub: stub})
+			continue
+		}
 		// "(*pkg.T).m" or "pkg.f"
 		t := target{stub: stub}
 		if strings.HasPrefix(full, "(*") {
@@ -127,6 +135,38 @@ func stubOverlay(work, harness string, replace map[string]string) error {
 			return err
 		}
 		changed := false
+		if len(exts) > 0 {
+			alias := map[string]string{} // local name -> import path
+			for _, im := range f.Imports {
+				path := strings.Trim(im.Path.Value, "\"")
+				name := path[strings.LastIndexByte(path, '/')+1:]
+				if im.Name != nil {
+					name = im.Name.Name
+				}
+				alias[name] = path
+			}
+			ast.Inspect(f, func(n ast.Node) bool {
+				call, ok := n.(*ast.CallExpr)
+				if !ok {
+					return true
+				}
+				sel, ok := call.Fun.(*ast.SelectorExpr)
+				if !ok {
+					return true
+				}
+				id, ok := sel.X.(*ast.Ident)
+				if !ok {
+					return true
+				}
+				for _, xt := range exts {
+					if alias[id.Name] == xt.pkg && sel.Sel.Name == xt.name {
+						call.Fun = ast.NewIdent(xt.stub)
+						changed = true
+					}
+				}
+				return true
+			})
+		}
 		var extra []ast.Decl
 		for _, d := range f.Decls {
 			fd, ok := d.(*ast.FuncDecl)
